@@ -27,7 +27,7 @@ ERRTAIL = re.compile(r" line=\d+ col=\d+ expr=[0-9a-f]*")
 
 def gen(ctx):
     rng = ctx.rng
-    n = 60 if ctx.tier == "quick" else 1500
+    n = 60 if ctx.tier == "quick" else 7500
     eg = G.ExprGen(rng, funcs=True, maxdepth=2)
     cases = []
     for _ in range(n):
